@@ -22,14 +22,12 @@ type TaskExecutor
   monitor queuedElementsMutex level 4 guards
     invariant self.queuedElements != nil && self.queuedElements.m != nil && self.queuedElements.opts != nil && unlocked(self.queuedElements.mutex)
     invariant forall e Int :: sel(live, e) ==> has(self.queuedElements.m, sel(idOf, e)) && self.queuedElements.m[sel(idOf, e)] == e
-    invariant forall k T :: has(self.queuedElements.m, k) ==> self.queuedElements.m[k] != nil && sel(idOf, self.queuedElements.m[k]) == k
+    invariant forall k T :: has(self.queuedElements.m, k) ==> self.queuedElements.m[k] != nil && sel(idOf, self.queuedElements.m[k]) == k && self.queuedElements.m[k].timedQueue != nil && self.queuedElements.m[k].rawElem != nil && self.queuedElements.m[k].cancel != nil
 
 -- the underlying executor / queue (not part of this claim): scheduling returns a new element, or nil after shutdown
 assume-func github.com/iotaledger/hive.go/runtime/timed.Executor.ExecuteAt(t, f, time) (r)
   requires t != nil
-  ensures r == nil || (fresh(r) && !sel(live, r))
-assume-func github.com/iotaledger/hive.go/runtime/timed.QueueElement.Cancel(e)
-  requires e != nil
+  ensures r == nil || (fresh(r) && !sel(live, r) && r.timedQueue != nil && r.rawElem != nil && r.cancel != nil)
 
 func TaskExecutor.ExecuteAt
   instantiate T: string
@@ -60,4 +58,25 @@ func TaskExecutor.ExecuteAt$1
   ghost after acquire: cur = *scheduledTask
   ghost after acquire: live = upd(live, cur, false)
   ensures unlocked((*t).queuedElementsMutex)
+-- the cancel channel of a queue element is only ever closed (never sent on): a receive from it is ready iff closed
+type QueueElement
+  closeonly cancel
+
+type Queue
+  monitor heapMutex level 5 guards heap
+
+-- removes the element from the heap if it is still in it, by its maintained index (the heap itself - generalheap
+-- through container/heap - is outside this claim: assumed to touch the heap slice, its elements and their indices only)
+assume-func github.com/iotaledger/hive.go/runtime/timed.Queue.removeElement(t, element)
+  requires t != nil && element != nil && element.rawElem != nil && held(t.heapMutex)
+  modifies t.heap, allelems(int), generalheap.HeapElement.index
+
+-- cancelling: the element leaves the heap if it is still queued, and its cancel channel is closed in every case -
+-- an element that a poller has already popped and is waiting for is woken up and skipped
+func QueueElement.Cancel
+  instantiate T: int
+  requires timedQueueElement != nil && timedQueueElement.timedQueue != nil && timedQueueElement.rawElem != nil && timedQueueElement.cancel != nil && unlocked(timedQueueElement.timedQueue.heapMutex)
+  modifies timedQueueElement.timedQueue.heap, allelems(int), generalheap.HeapElement.index, chans
+  ensures closed(timedQueueElement.cancel) && unlocked(timedQueueElement.timedQueue.heapMutex)
+  ensures forall c Int :: old(closed(c)) ==> closed(c)
 @*/
